@@ -1474,6 +1474,8 @@ def sorted_tree_items(
         mode, hexsha = entry
         # Stricter type checks than normal to mirror checks in the Rust version.
         mode = int(mode)
+        if not 0 <= mode <= 0xFFFFFFFF:
+            raise TypeError(f"Expected unsigned 32-bit mode, got {mode!r}")
         if not isinstance(hexsha, bytes):
             raise TypeError(f"Expected bytes for SHA, got {hexsha!r}")
         yield TreeEntry(name, mode, hexsha)
